@@ -12,6 +12,7 @@ from vf.harness import histories, monitors
 from vf.harness import world as w
 
 TRUSTED = [
+    "group pass (Model/Dispatch.v): the pending requests are taken in id order, as sqlite returns them; update_pull's answer is an input of the model",
     "Coq 8.16.1 kernel + VM; no native_compute",
     "translator vf/translate for the guards of delete_async (copies_required, the count test, the ENOENT test) and the archive_count query filter (textual)",
     "the daemon simulation (vf/harness/daemon.py): real update_loop per host stepped one iteration at a time on a shared sqlite index, every mutating os-level call interposed; "
